@@ -16,6 +16,7 @@ RULE = ("notification descriptors of every recognised type (picture set/delete, 
         "distinct = distinct (descriptor, flags, encryption).")
 RULE += (' The relevant stanzas also with an unknown element before / after their own children.')
 RULE += (' Unpresentable payloads include content kinds newer than the bundled schema (unknown fields), with and without a piggy-backed key distribution.')
+RULE += (' Status notifications with empty / absent / non-ASCII / non-text bodies.')
 ASSUMPTIONS = c06.ASSUMPTIONS + ["a picture notification that is neither set nor delete is rejected with an error by design (excluded by the property)"]
 
 
@@ -41,6 +42,11 @@ def cases(chk):
     for sk in (0, 1):
         for f in c06.FLAGSETS:
             yield "recv", {"d": {"tag": "message", "mtype": "media", "hasProto": 1, "media": "other", "skdm": sk, "participant": sk}, "flags": f, "enc": 0}
+    # notifications whose body is empty, absent, non-ASCII or not text at all (a contact CLEARED the status): acknowledged like any other
+    for d in [x for x in c06.SUPPORTED if x["tag"] == "notification" and x.get("ntype") == "status"]:
+        for body in (1, 2, 3, 4):
+            for enc in (0, 1):
+                yield "recv", {"d": dict(d, body=body), "flags": "1111", "enc": enc}
     # the same stanza 2-4 times under the same id on the same stack: every occurrence is acknowledged
     for d in [x for x in c06.SUPPORTED if _relevant(x) and x["tag"] in ("iq", "call", "notification")]:
         yield "recv", {"d": d, "flags": r.choice(c06.FLAGSETS), "enc": r.choice([0, 1]), "repeat": r.choice([2, 3, 4])}
